@@ -24,8 +24,7 @@ theorem step_decompX (g : Geom) (hB : g.B ≤ 65542) {l : Log} {J : List JE} {D 
     ∃ (A : List Effect) (U : List Nat) (S : List Effect),
       (l.step g c tick order).2.2 = A ++ U.map Effect.unlink ++ S ∧
       (∀ f, Effect.unlink f ∉ A) ∧ IsSyncL S ∧
-      (∀ (w : Bool) X, CutW w D A X → XRes g l.queues (l.step g c tick order).1.queues X ∧
-        (w = true → XInvRes g l.queues (l.step g c tick order).1.queues X)) ∧
+      (∀ (w : Bool) X, CutW w D A X → XInvRes g l.queues (l.step g c tick order).1.queues X) ∧
       (∀ k, 0 < k → k ≤ U.length →
         XInvRes g (l.step g c tick order).1.queues (l.step g c tick order).1.queues
           (applyOsOps (applyOsOps D (directOps A)) ((U.take k).map OsOp.unlink))) ∧
@@ -49,7 +48,7 @@ theorem step_decompX (g : Geom) (hB : g.B ≤ 65542) {l : Log} {J : List JE} {D 
       intro policy
       obtain ⟨J', lp, io, F', a1, a2, a3, a4, a5, a6⟩ := xinvres_of_cinvx g hB h hwfJ policy
       exact ⟨J', lp, io, F', a1, a2, a3, a4, a5, Or.inl a6⟩
-    exact ⟨hres.xres, fun _ => hres⟩
+    exact hres
   · -- one entry, no GC
     rw [hl] at hInv'
     have hq1 : (l.step g c tick order).1.queues = qs' := by rw [hl]
@@ -131,7 +130,7 @@ theorem step_decompX (g : Geom) (hB : g.B ≤ 65542) {l : Log} {J : List JE} {D 
         exact List.mem_append_left _ (List.mem_append_left _ (List.mem_append_left _ hv))
       have hpre : ∀ (w : Bool) X, CutW w D ((Log.writeEntry g l e).2.1 ++
           (writeTouches g { (Log.writeEntry g l e).1 with queues := qs' } names).2.1) X →
-          XRes g l.queues qs' X ∧ (w = true → XInvRes g l.queues qs' X) :=
+          XInvRes g l.queues qs' X :=
         fun w X hX => write_phase_crashX g hB h e qs' hewf hre hInv2 names hnames hwf' htorn2 w X hX
       refine ⟨_, _, sy, heff', ?_, hsy, ?_, ?_, hfin⟩
       · intro f hf
@@ -146,8 +145,7 @@ theorem step_decompX (g : Geom) (hB : g.B ≤ 65542) {l : Log} {J : List JE} {D 
         · exact hpre w X hX
         · have := cutW_syncL (isSyncL_persist _ _) hX
           rw [this]
-          have hfull := hpre true _ (CutW.full true _ _)
-          exact ⟨hfull.1, fun _ => hfull.2 rfl⟩
+          exact hpre true _ (CutW.full true _ _)
       · intro k hk0 hk
         rw [hq1]
         have hD : applyOsOps D (directOps ((Log.writeEntry g l e).2.1 ++
